@@ -41,6 +41,10 @@ extern "C" void __asan_unpoison_memory_region (void const volatile *addr, size_t
 #  define SVMON_UNPOISON(p, n) ((void) (p), (void) (n))
 #endif
 
+#ifdef SVMON_GCOV
+extern "C" void __gcov_dump (void);
+#endif
+
 namespace svmon
 {
 
@@ -70,9 +74,21 @@ namespace svmon
   struct Rng
   {
     uint64_t s;
-    explicit Rng (uint64_t seed = 1) : s (seed) { }
+    // byte-fed mode (coverage-guided driver): every draw consumes two bytes of the input, 0 once it is used up
+    const unsigned char *fp, *fe;
+    explicit Rng (uint64_t seed = 1) : s (seed), fp (0), fe (0) { }
+    Rng (const unsigned char *data, size_t size) : s (0), fp (data), fe (data + size) { }
+    bool fed () const { return fp != 0; }
+    bool exhausted () const { return fp != 0 && fp >= fe; }
     uint64_t next ()
     {
+      if (fp)
+      {
+        uint64_t v = 0;
+        if (fp < fe) v = *fp++;
+        if (fp < fe) v |= static_cast<uint64_t> (*fp++) << 8;
+        return v;
+      }
       uint64_t z = (s += 0x9E3779B97F4A7C15ull);
       z = (z ^ (z >> 30)) * 0xBF58476D1CE4E5B9ull;
       z = (z ^ (z >> 27)) * 0x94D049BB133111EBull;
@@ -498,6 +514,9 @@ namespace svmon
         fn (next, end);
         emit_coverage ();
         std::fflush (stdout);
+#ifdef SVMON_GCOV
+        __gcov_dump ();                          // selftest/coverage.py: children leave through _exit
+#endif
         _exit (0);
       }
       int status = 0;
